@@ -160,6 +160,9 @@ func (c *Check) Finish(start time.Time, loadErr error) int {
 	}
 	os.MkdirAll(filepath.Join(evdir, "violations"), 0o755)
 	known, _ := loadKnownFindings(filepath.Join(vd, "known_findings.txt"))
+	if os.Getenv("MIXVET_NO_KNOWN") != "" {
+		known = nil
+	}
 
 	if loadErr != nil {
 		c.Undecided("load", "repo", "the repository must load and type-check", loadErr.Error())
